@@ -6,5 +6,6 @@ CONSTANTS
   MaxDup = 0
   MaxLen = 6
   MaxTimeouts = 1
+  MaxForged = 0
 INVARIANTS OneFinalisationPerSlot
 CHECK_DEADLOCK FALSE
